@@ -291,8 +291,33 @@ def r11_8(prog: Program, rep: Report, rule="R11.8"):
     rep.check(ident, rule, ev.qualname, ev.loc, "a non-reference is returned unchanged", "evaluate() does not return non-references unchanged", detail="identity")
     rep.check(cached, rule, ev.qualname, ev.loc, "an evaluated reference yields its stored value", "evaluate() does not reuse __forward_value__ of an evaluated reference", detail="evaluated")
     rep.check(evald, rule, ev.qualname, ev.loc, "otherwise the reference itself is evaluated in the supplied namespaces", "evaluate() does not evaluate the given reference with the caller's namespaces", detail="evaluate")
+    # a reference that names no module (typing makes those for `List["Node"]`) is looked for like a bare string, not
+    # evaluated in empty namespaces
+    moduleless = False
+    for p, r in P.returns(P.paths_of(prog, ev)):
+        if r[0] == "call" and r[1][0] == "attr" and r[1][2] == "_evaluate":
+            recv = r[1][1]
+            if T.is_call_to(recv, "typelib.py.refs.forwardref") and recv[2] and T.contains(recv[2][0], lambda x: x == ("attr", ref, "__forward_arg__")):
+                explicit = dict(recv[3]).get("module")
+                if explicit is None or explicit == ("attr", ref, "__forward_module__"):
+                    moduleless = True
+    rep.check(moduleless, rule, ev.qualname, ev.loc, "a reference without a module is re-made from its text (module found as for a bare string) before it is evaluated", "a reference that names no module -- what typing itself makes for the string in List['Node'], Dict[str, 'Item'], Optional['Item'] -- is evaluated as it is, in empty namespaces: NameError for every class that is not a builtin, although the same string at the root resolves", detail="moduleless-reference")
     af = prog.function(f"{C.INSP}.args")
     ann = ("param", af.params[0])
+    # raw string members (a builtin generic keeps them: list['Node']) are references too -- except in a Literal
+    str_members = lit_excluded = False
+    for p in P.paths_of(prog, af):
+        if not any(g == ("param", "evaluate") and pol for g, pol in p.guards()):
+            continue
+        for tm in p.all_terms():
+            for x in T.walk(tm):
+                if x[0] == "ifexp" and T.is_call_to(x[1], "builtins.isinstance") and T.refname(x[1][2][1]) == "builtins.str" and T.is_call_to(x[2], "typelib.py.refs.forwardref"):
+                    str_members = True
+                if x[0] == "comp" and any(T.is_call_to(cd, "builtins.isinstance") and T.refname(cd[2][1]) == "builtins.str" for cd in x[4]) and T.contains(x[2], lambda y: T.is_call_to(y, "typelib.py.refs.forwardref")):
+                    str_members = True
+        if any(T.contains(g, lambda y: T.refname(y) == "typing.Literal" or T.is_call_to(y, f"{C.INSP}.isliteral")) for g, _pol in p.guards()):
+            lit_excluded = True
+    rep.check(str_members and lit_excluded, rule, af.qualname, af.loc, "args(evaluate=True) turns raw string members into references first (Literal members stay values)", "args(evaluate=True) leaves raw string members as they are (refs.evaluate returns a str unchanged): the routine constructors look list['Item'] / dict[str, 'Item'] members up under the *string*, which is no key of the context (KeyError), or dispatch on a str object (TypeError)" if not str_members else "raw string members are turned into references for Literal annotations too: the members of Literal['a', 'b'] are values", detail="args-evaluate-strings")
     okargs = okeval = False
     for p, r in P.returns(P.paths_of(prog, af)):
         if T.contains(r, lambda s: T.is_call_to(s, "typing.get_args") and s[2] == (ann,)):
